@@ -429,6 +429,25 @@ class Facts:
             return True
         return False
 
+    def owners(self, b):
+        """The known functions a body belongs to: itself; for a closure the function it is written in; for a helper that was
+        inlined, the functions it was inlined into (transitively)."""
+        out = set()
+        seen = set()
+        work = [b.deff if b.kind != "closure" else (b.j.get("closure_root") or b.deff)]
+        while work:
+            d = work.pop()
+            if d in seen:
+                continue
+            seen.add(d)
+            fb = self.fn(d)
+            into = fb.j.get("inlined_into") if fb is not None else None
+            if into:
+                work.extend(into)
+            else:
+                out.add(d)
+        return out
+
     def closures_of(self, deff):
         """Closures created in `deff` — including those created in helpers that were inlined into it."""
         roots = {deff}
